@@ -63,8 +63,12 @@ def groups_def():
     return out
 
 
-def harness_build(dbg=True, extra_flags=(), tag=""):
-    """Compile the harness for the current /repo tree. -> (ok, exe_path_or_log)"""
+def harness_build(dbg=True, extra_flags=(), tag="", kind="std"):
+    """Compile the harness for the current /repo tree. -> (ok, exe_path_or_log)
+    kind="jet": the dual-number harness (jmain.cpp + j_*.cpp against the ceres::Jet stand-in)"""
+    if kind == "jet":
+        tag = "_jet"
+        extra_flags = list(extra_flags) + ["-I" + os.path.join(HARNESS, "shim")]
     flags = BASE_FLAGS + ([] if dbg else ["-DNDEBUG"]) + list(extra_flags)
     hsh = tree_hash(flags)
     d = os.path.join(CACHE, "h_" + hsh)
@@ -72,8 +76,11 @@ def harness_build(dbg=True, extra_flags=(), tag=""):
     if os.path.exists(exe):
         return True, exe
     os.makedirs(d, exist_ok=True)
-    srcs = ["main.cpp"] + ["g_%s.cpp" % g for g in groups_def()]
-    srcs += [f for f in sorted(os.listdir(HARNESS)) if f.startswith("x_") and f.endswith(".cpp")]
+    if kind == "jet":
+        srcs = ["jmain.cpp"] + [f for f in sorted(os.listdir(HARNESS)) if f.startswith("j_") and f.endswith(".cpp")]
+    else:
+        srcs = ["main.cpp"] + ["g_%s.cpp" % g for g in groups_def()]
+        srcs += [f for f in sorted(os.listdir(HARNESS)) if f.startswith("x_") and f.endswith(".cpp")]
 
     def cc(src):
         obj = os.path.join(d, src[:-4] + tag + ".o")
